@@ -12,6 +12,7 @@ import (
 
 func init() {
 	ops["Select"] = opSelect
+	ops["SelectBig"] = opSelect
 	ops["SimpleCoin"] = opSimpleCoin
 	for _, op := range []string{"CsNew", "CsPush", "CsPop", "CsShift", "CsObserve", "CsFinal"} {
 		ops[op] = opCoinSet
@@ -213,6 +214,19 @@ func coinOfTx(id, txk, index int, v, cf int64) map[string]interface{} {
 
 func runC19(c *Ctx) {
 	c.DeferredOp = "CsFinal"
+	// coins whose value-ages lie above 2^53 and differ by less than a double can tell (planner: neighbouring products of
+	// factors near 2^27), the smaller one offered first: a ranking on rounded keys gets them the wrong way round
+	for k := 0; k < c.Pick(40, 400); k++ {
+		// v1 * (v1 + 1 - d) and (v1 + 1) * (v1 - d) differ by exactly d
+		v1 := int64(1<<27) + c.Rng.Int63n(1<<27)
+		d := 1 + c.Rng.Int63n(3)
+		b, a := coinRec(1, v1+1, v1-d), coinRec(2, v1, v1+1-d) // the smaller value-age (b) is offered first
+		small := coinRec(3, 5, 1)
+		for _, sn := range []string{"MaxValueAge", "MinNumber"} {
+			c.Call(Event{"op": "SelectBig", "selector": sn, "coins": []interface{}{b, a, small}, "target": 1, "maxinputs": 1 + k%3, "minchange": 0, "minavg": 0})
+			c.Call(Event{"op": "SelectBig", "selector": sn, "coins": []interface{}{small, b, a}, "target": int(v1), "maxinputs": 3, "minchange": 0, "minavg": 0})
+		}
+	}
 	for k := 0; k < c.Pick(30, 300); k++ { // the library's own coin type
 		n := 1 + c.Rng.Intn(5)
 		var vals []int
